@@ -7,10 +7,21 @@
      min/max: the result is (structurally) an element of the list that no element precedes
              (follows), the default for the empty list; two-value forms likewise.
    Real and model outputs are compared up to the order's equivalence (sort.Slice is not stable;
-   the map iteration order is free). *)
+   the map iteration order is free).
+
+   "Derived Compare" is the generated Compare OF THE ELEMENT TYPE as plugin/compare emits it,
+   user methods included ([cmp13] of Ord/Methods13.v: [cmpm] for method-free types — then the
+   generic models below are the models of Ord/Model.v, [method_free_models] — and [cmpm_m true]
+   otherwise).  Only the SIGN of its results is used ([models_sign_only], [specs_sign_only]): a
+   user method may return any negative / positive number.  For an element type with user methods
+   the order facts of C03 are not available; the guard then is that the compare function is a
+   total preorder on the values at hand, decided by [tpo_b] ([tpo_b_sound]).  Where it is not
+   (the user's method is inconsistent with ==, e.g. a map keyed by a struct whose method ignores
+   a field) only the order-independent half of the specification is judged: Sort returns a
+   permutation, Min / Max return an element of the list. *)
 From Coq Require Import String.
-From Verif Require Import Base Sexp Go.Ty Go.Val Go.Equal Go.Compare Go.CompareSpec
-  Ord.Sorter Ord.Model.
+From Verif Require Import Base Sexp Go.Ty Go.Val Go.Equal Go.Compare Go.CompareSpec Go.Methods
+  Ord.Sorter Ord.Model Ord.Methods13.
 Open Scope string_scope.
 
 Definition seq (t : ty) (x y : val) : bool :=
@@ -97,6 +108,30 @@ Definition node_tag (t : ty) : string :=
 Definition kind_tag (k : okind) : string :=
   match k with KStdlib => "stdlib" | KNatural => "natural" | KCompare => "compare" | KIll => "ill" end.
 
+(* ---------- element types with user methods ---------- *)
+(* the guard of the generic theorems on the values at hand *)
+Definition preorder_ok (t : ty) (k : okind) (l : list val) : bool :=
+  (method_free t || match k with KCompare => tpo_b (cmp13 [] t) l | _ => false end)%bool.
+(* what the values at hand exercise: a compare result other than -1/0/+1; a pair that the
+   method orders differently from the field-by-field comparison *)
+Definition pairs_exist (p : val -> val -> bool) (l : list val) : bool :=
+  existsb (fun x => existsb (p x) l) l.
+Definition meth_tag (t : ty) (l0 : list val) : string :=
+  let l := firstn 12 l0 in          (* a tag only: the first elements *)
+  if method_free t then ""
+  else "methods"
+       ++ (if pairs_exist (fun x y => match cmp13 [] t x y with Ok c => (1 <? Z.abs c)%Z | _ => false end) l
+           then "+magnitude" else "")
+       ++ (if pairs_exist (fun x y => match cmp13 [] t x y, cmpm [] t x y with
+                                      | Ok c, Ok d => negb (Z.sgn c =? Z.sgn d)%Z | _, _ => false end) l
+           then "+not-fieldwise" else "")
+       ++ "/".
+(* the compare function is not a total preorder on these values: only the order-independent
+   half of the specification is judged, nothing is compared with the model *)
+Definition no_order_verdict (typed : bool) (spec : bool) (tag : string) : verdict :=
+  {| v_known := typed; v_model_ok := true; v_spec_ok := spec; v_guard := typed;
+     v_model := Sym "compare-is-not-a-preorder-on-these-values"; v_tag := tag ++ "not-a-preorder" |}.
+
 Definition fail_verdict (guard : bool) (m : sexp) (tag : string) : verdict :=
   {| v_known := true; v_model_ok := false; v_spec_ok := false; v_guard := guard; v_model := m; v_tag := tag |}.
 
@@ -115,12 +150,12 @@ Definition eval_sort (t : ty) (lst : val) (real : sexp) : verdict :=
   | None => bad_line
   | Some es =>
       let k := sort_kind [] t in
-      let f := less_by k [] t in
+      let f := less_g (cmp13 [] t) k in
       let le := fun a b => negb (tot (f b a)) in
       let eqv := fun a b => (le a b && le b a)%bool in
       let typed := has_type [] (TSl t) lst in
       let guard := (typed && is_ok (status f es))%bool in
-      let m := sort_model isort [] t lst in
+      let m := sort_model_g (cmp13 [] t) isort k lst in
       let shape :=
         match es with
         | [] => if is_nil_sl lst then "nil" else "empty"
@@ -128,7 +163,7 @@ Definition eval_sort (t : ty) (lst : val) (real : sexp) : verdict :=
         | _ => (if sorted_b le es then "sorted" else if sorted_b le (rev es) then "reversed" else "mixed")
                ++ (if has_dup eqv es then "-dups" else "")
         end in
-      let tag := "sort/" ++ kind_tag k ++ "/" ++ node_tag t ++ "/" ++ shape in
+      let tag := "sort/" ++ kind_tag k ++ "/" ++ meth_tag t es ++ node_tag t ++ "/" ++ shape in
       if is_unsup (status f es) then outside_model ("sort/" ++ kind_tag k ++ "/" ++ node_tag t) else
       match match get_ret real with Some o => parse_val o | None => None end with
       | None => fail_verdict guard (vres_sexp m) tag
@@ -136,6 +171,10 @@ Definition eval_sort (t : ty) (lst : val) (real : sexp) : verdict :=
           match elems out with
           | None => fail_verdict guard (vres_sexp m) tag
           | Some os =>
+              if negb (preorder_ok t k es) then
+                no_order_verdict typed (multiset_eq (seq t) es os)
+                  ("sort/" ++ kind_tag k ++ "/" ++ meth_tag t es ++ node_tag t ++ "/")
+              else
               let spec := (multiset_eq (seq t) es os && is_ok (status f os) && sorted_b le os)%bool in
               let mok := match m with
                          | Ok mv => match elems mv with
@@ -223,10 +262,10 @@ Definition eval_minmax (ismin : bool) (t : ty) (lst def : val) (real : sexp) : v
   | None => bad_line
   | Some es =>
       let k := minmax_kind [] t in
-      let f := if ismin then less_by k [] t else greater_by k [] t in
+      let f := if ismin then less_g (cmp13 [] t) k else greater_g (cmp13 [] t) k in
       let typed := (has_type [] (TSl t) lst && has_type [] t def)%bool in
       let guard := (typed && is_ok (status f es))%bool in
-      let m := if ismin then min_model [] t lst def else max_model [] t lst def in
+      let m := if ismin then min_g (cmp13 [] t) k lst def else max_g (cmp13 [] t) k lst def in
       let best := fun x => forallb (fun y => is_false (f y x)) es in
       let shape :=
         match es with
@@ -241,7 +280,7 @@ Definition eval_minmax (ismin : bool) (t : ty) (lst def : val) (real : sexp) : v
                | _ => "undefined"
                end
         end in
-      let tag := (if ismin then "min/" else "max/") ++ kind_tag k ++ "/" ++ node_tag t ++ "/" ++ shape in
+      let tag := (if ismin then "min/" else "max/") ++ kind_tag k ++ "/" ++ meth_tag t es ++ node_tag t ++ "/" ++ shape in
       if is_unsup (status f es) then outside_model ((if ismin then "min/" else "max/") ++ kind_tag k ++ "/" ++ node_tag t) else
       match get_res real with
       | None => fail_verdict guard (vres_sexp m) tag
@@ -249,6 +288,10 @@ Definition eval_minmax (ismin : bool) (t : ty) (lst def : val) (real : sexp) : v
           match parse_val o with
           | None => fail_verdict guard (vres_sexp m) tag
           | Some r =>
+              if negb (preorder_ok t k es) then
+                no_order_verdict typed (match es with [] => seq t r def | _ => existsb (seq t r) es end)
+                  ((if ismin then "min/" else "max/") ++ kind_tag k ++ "/" ++ meth_tag t es ++ node_tag t ++ "/")
+              else
               let spec := match es with
                           | [] => seq t r def
                           | _ => (existsb (seq t r) es && forallb (fun y => is_false (f y r)) es)%bool
@@ -262,11 +305,11 @@ Definition eval_minmax (ismin : bool) (t : ty) (lst def : val) (real : sexp) : v
 
 Definition eval_minmax2 (ismin : bool) (t : ty) (a b : val) (real : sexp) : verdict :=
   let k := minmax_kind [] t in
-  let f := if ismin then less_by k [] t else greater_by k [] t in
+  let f := if ismin then less_g (cmp13 [] t) k else greater_g (cmp13 [] t) k in
   let typed := (has_type [] t a && has_type [] t b)%bool in
   let guard := (typed && is_ok (status f [a; b]))%bool in
-  let m := if ismin then min2_model [] t a b else max2_model [] t a b in
-  let tag := (if ismin then "min2/" else "max2/") ++ kind_tag k ++ "/" ++ node_tag t ++ "/"
+  let m := if ismin then min2_g (cmp13 [] t) k a b else max2_g (cmp13 [] t) k a b in
+  let tag := (if ismin then "min2/" else "max2/") ++ kind_tag k ++ "/" ++ meth_tag t [a; b] ++ node_tag t ++ "/"
              ++ (if tot (f a b) then "first" else if tot (f b a) then "second" else "tie") in
   if is_unsup (status f [a; b]) then outside_model ((if ismin then "min2/" else "max2/") ++ kind_tag k ++ "/" ++ node_tag t) else
   match get_res real with
@@ -275,6 +318,10 @@ Definition eval_minmax2 (ismin : bool) (t : ty) (a b : val) (real : sexp) : verd
       match parse_val o with
       | None => fail_verdict guard (vres_sexp m) tag
       | Some r =>
+          if negb (preorder_ok t k [a; b]) then
+            no_order_verdict typed (seq t r a || seq t r b)%bool
+              ((if ismin then "min2/" else "max2/") ++ kind_tag k ++ "/" ++ meth_tag t [a; b] ++ node_tag t ++ "/")
+          else
           let spec := ((seq t r a || seq t r b) && is_false (f a r) && is_false (f b r))%bool in
           let mok := (match m with Ok mv => seq t r mv | _ => false end && same)%bool in
           {| v_known := typed; v_model_ok := mok; v_spec_ok := spec; v_guard := guard;
